@@ -403,6 +403,7 @@ class Report:
         self.violations = []        # (cls, field, replay dict)
         self.known_hits = {}        # what -> count
         self.other = {}             # owner -> count (mismatches owned by other properties)
+        self.drift = set()
         self.assumptions = []
         self.exhaustive = None
         self.known = load_known()
@@ -421,6 +422,9 @@ class Report:
         """one disagreeing field of one event"""
         if owner != self.prop:
             self.other[owner] = self.other.get(owner, 0) + 1
+            if owner == "I" and field not in self.drift:
+                self.drift.add(field)
+                print(f"MODEL-DRIFT: opaque field {field} differs from the implementation-shaped description ({cls}); no listed property constrains it")
             return
         for e in self.known:
             if finding_matches(e, owner, cls, field):
